@@ -398,6 +398,45 @@ fn signals_and_keyboard(rep: &mut Report, variant_b: bool, nchanges: usize) {
 			return false;
 		}
 		tokio::time::sleep(Duration::from_millis(60)).await;
+		// events that are equal to one another are still separate events: three empty ones and three identical tagged
+		// ones sent back to back (one debounce window) must all reach the handler
+		{
+			let mut md = std::collections::HashMap::new();
+			md.insert("verif-twin".to_string(), vec!["same".to_string()]);
+			let twin = Event { tags: vec![Tag::Source(Source::Internal)], metadata: md };
+			for _ in 0..3 {
+				wx.send_event(Event::default(), Priority::Normal).await.ok();
+			}
+			for _ in 0..3 {
+				wx.send_event(twin.clone(), Priority::Normal).await.ok();
+			}
+			let seen = |b: &Arc<Mutex<Vec<(u64, Vec<Event>)>>>| {
+				let g = b.lock().unwrap();
+				let all = g.iter().flat_map(|x| x.1.iter());
+				let (mut empties, mut twins) = (0, 0);
+				for e in all {
+					if e.tags.is_empty() && e.metadata.is_empty() {
+						empties += 1;
+					}
+					if e.metadata.contains_key("verif-twin") {
+						twins += 1;
+					}
+				}
+				(empties, twins)
+			};
+			let t = std::time::Instant::now();
+			while seen(&batches) != (3, 3) && t.elapsed() < Duration::from_secs(3) {
+				tokio::time::sleep(Duration::from_millis(2)).await;
+			}
+			tokio::time::sleep(Duration::from_millis(30)).await;
+			let (e, tw) = seen(&batches);
+			if (e, tw) != (3, 3) {
+				findings.push((
+					format!("C01/equal-events/{}", if e < 3 || tw < 3 { "lost" } else { "duplicate" }),
+					format!("3 empty and 3 identical tagged events were sent back to back; the handler received {e} and {tw}"),
+				));
+			}
+		}
 		let base_usr1 = count(&batches, Signal::User1);
 		for (ns, ws, _) in &sent {
 			let before = count(&batches, *ws);
